@@ -133,13 +133,14 @@ func c05r2(c *Ctx) {
 			}
 			continue
 		}
-		want := fmt.Sprintf("!bytesEqual(%s[:%d],%q)", key, n, prefix)
-		want2 := fmt.Sprintf("!bytesEqual(%q,%s[:%d])", prefix, key, n)
-		if t := e.Term(rv); t == want || t == want2 {
+		// the verdict is exactly "the first n bytes differ from the prefix", in whichever comparison idiom it is written
+		want := eqAtom(fmt.Sprintf("%s[:%d]", key, n), fmt.Sprintf("%q", prefix))
+		fs := e.decode(rv, true, "")
+		if len(fs) == 1 && !fs[0].Lin && !fs[0].Pos && fs[0].Atom == want {
 			c.OK(rule, FuncName(fn), construct, c.P.InstrPos(r), "accepts exactly when the first "+fmt.Sprint(n)+" bytes differ from "+prefix)
 		} else {
 			c.FailX(Oblig{Rule: rule, Func: FuncName(fn), Construct: construct, Pos: c.P.InstrPos(r), Kind: "violation",
-				Detail: "the non-constant verdict is " + t, Expected: want})
+				Detail: "the non-constant verdict is " + e.Term(rv), Expected: "!" + want})
 		}
 	}
 }
